@@ -501,18 +501,30 @@ Definition op_accept (m : mstate) (s c : nat) (ok : bool) : prog (mstate * nat) 
        else close_field (OHandle s HAcc))                    (* stream.c:553, 561 *)
       (Relabel (shift_queue s) (Ret (m, if ok && negb busy then RC_OK else RC_ERR))))).
 
-(* uv__stream_recv_cmsg, stream.c:981-1026: n descriptors arrived with one message *)
-Fixpoint op_recvfds (m : mstate) (h : nat) (n : nat) : prog (mstate * nat) :=
+(* uv__stream_recv_cmsg, stream.c:981-1026: descriptors that arrived with one message and
+   found room: the first goes to accepted_fd when that is free, the others to queued_fds *)
+Fixpoint recv_keep (h : nat) (n : nat) (c : prog (mstate * nat)) : prog (mstate * nat) :=
   match n with
-  | O => Ret (m, RC_OK)
+  | O => c
   | S n' =>
       Has (own_is (OHandle h HAcc)) (fun b =>
         if b then Count (is_queued h) (fun k =>
-                    Create KCmsg [OHandle h (HQ k)] true (fun _ => op_recvfds m h n'))
-        else Create KCmsg [OHandle h HAcc] true (fun _ => op_recvfds m h n'))
+                    Create KCmsg [OHandle h (HQ k)] true (fun _ => recv_keep h n' c))
+        else Create KCmsg [OHandle h HAcc] true (fun _ => recv_keep h n' c))
   end.
+(* ... and those behind a failing uv__stream_queue_fd (uv__malloc / uv__realloc of the queue,
+   stream.c:942-978): "if (err != 0) uv__close(fd)" for that one and every later one *)
+Fixpoint recv_drop (j : nat) (n : nat) (c : prog (mstate * nat)) : prog (mstate * nat) :=
+  match n with
+  | O => c
+  | S n' => Create KCmsg [OTemp j] true (fun _ => recv_drop (S j) n' c)
+  end.
+(* n descriptors in the message, the first [keep] stored *)
+Definition op_recvfds (m : mstate) (h : nat) (n keep : nat) : prog (mstate * nat) :=
+  if Nat.leb n keep then recv_keep h n (Ret (m, RC_OK))
+  else recv_keep h keep (recv_drop 0 (n - keep) (CloseIf is_temp false (Ret (m, RC_ERR)))).
 
-(* uv_close: uv__stream_close (stream.c:1507-1559), uv__udp_close (udp.c:56-64);
+(* uv_close: uv__stream_close (stream.c:1507-1559), uv__udp_close (udp.c:56-66);
    the other handle types own no descriptor *)
 Definition op_close (m : mstate) (h : nat) : prog (mstate * nat) :=
   if negb (is_open m h) then Ret (m, RC_MISUSE)
@@ -523,7 +535,7 @@ Definition op_close (m : mstate) (h : nat) : prog (mstate * nat) :=
       CloseIf (own_is (OHandle h HIo)) true                  (* "fd > STDERR_FILENO" *)
         (close_field (OHandle h HAcc)
           (CloseIf (is_queued h) false (Ret (m', RC_OK))))
-  | TUdp => close_field (OHandle h HIo) (Ret (m', RC_OK))
+  | TUdp => CloseIf (own_is (OHandle h HIo)) true (Ret (m', RC_OK))   (* same test since c6159bf *)
   | TOther => Ret (m', RC_OK)
   end.
 
@@ -647,7 +659,7 @@ Inductive op :=
 | OOpen (h : nat) (src : fdsrc) (ok : bool)
 | OSrvIo (h : nat) (fuel : nat)
 | OAccept (s c : nat) (ok : bool)
-| ORecvFds (h : nat) (n : nat)
+| ORecvFds (h : nat) (n keep : nat)
 | OClose (h : nat)
 | ORun
 | OFsEventStart (h : nat)
@@ -673,7 +685,7 @@ Definition op_prog (m : mstate) (o : op) : prog (mstate * nat) :=
   | OOpen h src ok => op_open m h src ok
   | OSrvIo h fuel => op_srvio m h fuel
   | OAccept s c ok => op_accept m s c ok
-  | ORecvFds h n => if hok m h HAcc then op_recvfds m h n else Ret (m, RC_MISUSE)
+  | ORecvFds h n keep => if hok m h HAcc then op_recvfds m h n keep else Ret (m, RC_MISUSE)
   | OClose h => op_close m h
   | ORun => op_run m
   | OFsEventStart h => op_fsevent_start m h
